@@ -63,6 +63,23 @@ pub fn c01_verdict(data: &[u8]) -> Verdict {
     c01::check_session(&s, &mut rec)
 }
 
+/// C14: the bytes are program text; lines without a number get one.
+pub fn c14_verdict(data: &[u8]) -> Verdict {
+    let Ok(s) = std::str::from_utf8(data) else { return Verdict::Pass };
+    let lines: Vec<String> = s
+        .split('\n')
+        .take(12)
+        .enumerate()
+        .map(|(i, l)| if l.trim_start().starts_with(|c: char| c.is_ascii_digit()) { l.to_string() } else { format!("{} {}", (i + 1) * 10, l) })
+        .collect();
+    let mut rec = CaseRec::default();
+    crate::props::c14::check_store(&crate::props::c14::StoreCase { lines, seed: 0 }, &mut rec)
+}
+
+pub fn c14(data: &[u8]) -> Option<String> {
+    verdict_to_option(c14_verdict(data))
+}
+
 pub fn c13(data: &[u8]) -> Option<String> {
     verdict_to_option(c13_verdict(data))
 }
@@ -88,6 +105,19 @@ pub fn emit_corpus(target: &str, dir: &std::path::Path) -> std::io::Result<usize
             for (i, l) in lines.iter().enumerate().take(400) {
                 put(format!("line{}", i), l.as_bytes().to_vec())?;
             }
+        }
+        "c14_roundtrip" => {
+            for f in ["/repo/programs/chemist.bas", "/repo/programs/hamurabi.bas"] {
+                if let Ok(t) = std::fs::read_to_string(f) {
+                    for (i, chunk) in t.lines().filter(|l| !l.trim().is_empty()).collect::<Vec<_>>().chunks(8).enumerate() {
+                        put(format!("{}-{}", f.rsplit('/').next().unwrap(), i), chunk.join("\n").into_bytes())?;
+                    }
+                }
+            }
+            for (i, l) in lines.iter().enumerate().take(300) {
+                put(format!("line{}", i), l.as_bytes().to_vec())?;
+            }
+            put("data".into(), b"10 DATA hello \"there\", \"a,b\", 5 , x y :REM r\n20 X .5:PRINT X1.1\n30 READ A$,B$".to_vec())?;
         }
         "c05_analyze" => {
             for f in ["/repo/programs/chemist.bas", "/repo/programs/hamurabi.bas"] {
